@@ -1,3 +1,368 @@
-(* Lemmas about Model/Trie.v and Model/Keyspace.v (C18). *)
+(* Lemmas about Model/Keyspace.v (C18): lookup, subtrie, pruning, iteration order. *)
 From Verif.Lib Require Import GoSem Bits.
 From Verif.Model Require Import Trie Keyspace.
+From Verif.Proofs Require Import KeyspaceBase.
+From Coq Require Import Permutation Sorted.
+
+(* ---- FindPrefixOfKey --------------------------------------------------------- *)
+Lemma find_prefix_at_spec {D} (t : trie D) : forall p k,
+  wf_at p t -> is_prefix p k = true ->
+  exists x b, find_prefix_at t k (length p) = Ok (x, b) /\
+    (b = true -> In x (keys_of t) /\ is_prefix x k = true) /\
+    (b = false -> forall y, In y (keys_of t) -> is_prefix y k = false).
+Proof.
+  induction t as [|k' d|t0 IH0 t1 IH1]; intros p k Hw Hp; simpl.
+  - exists [], false. split; [reflexivity|]. split; [discriminate|]. intros _ y [].
+  - exists k', (Nat.eqb (cpl k' k) (length k')). split; [reflexivity|].
+    rewrite cpl_eqb_is_prefix. unfold keys_of; simpl. split.
+    + intro H. split; [left; reflexivity|exact H].
+    + intros H y [<-|[]]. exact H.
+  - destruct (Nat.eqb (length p) (length k)) eqn:El.
+    + apply Nat.eqb_eq in El. pose proof (is_prefix_same_length _ _ Hp El) as ->.
+      exists [], false. split; [reflexivity|]. split; [discriminate|].
+      intros _ y Hy. destruct (is_prefix y k) eqn:E; [|reflexivity]. exfalso.
+      rewrite keys_of_Nd in Hy. destruct Hw as [W0 [W1 _]].
+      apply in_app_or in Hy as [Hy|Hy];
+        [pose proof (wf_at_keys_prefix _ _ _ W0 Hy) as A|pose proof (wf_at_keys_prefix _ _ _ W1 Hy) as A];
+        apply is_prefix_length in A; apply is_prefix_length in E; rewrite app_length in A; simpl in A; lia.
+    + apply Nat.eqb_neq in El. pose proof (is_prefix_length _ _ Hp) as Hl.
+      destruct (bit_at_lt k (length p)) as [b [Hb Hn]]; [lia|]. rewrite Hb. simpl.
+      assert (Hp' : is_prefix (p ++ [b]) k = true) by (apply is_prefix_snoc; auto).
+      pose proof (wf_at_child p t0 t1 b Hw) as Wc.
+      assert (Hlen : S (length p) = length (p ++ [b])) by (rewrite app_length; simpl; lia).
+      rewrite Hlen.
+      destruct b; simpl in *.
+      * destruct (IH1 _ k Wc Hp') as [x [r [E [A B]]]]. exists x, r. split; [exact E|].
+        rewrite keys_of_Nd. split.
+        -- intro Hr. destruct (A Hr). split; [apply in_or_app; right|]; assumption.
+        -- intros Hr y Hy. apply in_app_or in Hy as [Hy|Hy]; [|apply B; assumption].
+           destruct Hw as [W0 _]. pose proof (wf_at_keys_prefix _ _ _ W0 Hy) as P0.
+           destruct (is_prefix y k) eqn:Ey; [|reflexivity]. exfalso.
+           apply is_prefix_snoc in P0 as [_ P0].
+           assert (length p < length y) by (apply nth_error_Some; congruence).
+           rewrite <- (is_prefix_nth y k (length p) Ey H) in P0. congruence.
+      * destruct (IH0 _ k Wc Hp') as [x [r [E [A B]]]]. exists x, r. split; [exact E|].
+        rewrite keys_of_Nd. split.
+        -- intro Hr. destruct (A Hr). split; [apply in_or_app; left|]; assumption.
+        -- intros Hr y Hy. apply in_app_or in Hy as [Hy|Hy]; [apply B; assumption|].
+           destruct Hw as [_ [W1 _]]. pose proof (wf_at_keys_prefix _ _ _ W1 Hy) as P1.
+           destruct (is_prefix y k) eqn:Ey; [|reflexivity]. exfalso.
+           apply is_prefix_snoc in P1 as [_ P1].
+           assert (length p < length y) by (apply nth_error_Some; congruence).
+           rewrite <- (is_prefix_nth y k (length p) Ey H) in P1. congruence.
+Qed.
+
+(* FindPrefixOfKey never panics on a well-formed trie; it reports a match exactly when some key
+   of the trie is a prefix of k, and then returns that key (unique: the trie is prefix-free) *)
+Theorem find_prefix_exact {D} (t : trie D) k : wf t ->
+  exists x b, find_prefix_of_key t k = Ok (x, b) /\
+    (b = true <-> exists y, In y (keys_of t) /\ is_prefix y k = true) /\
+    (b = true -> In x (keys_of t) /\ is_prefix x k = true /\
+                 forall y, In y (keys_of t) -> is_prefix y k = true -> y = x).
+Proof.
+  intro Hw. destruct (find_prefix_at_spec t [] k Hw eq_refl) as [x [b [E [A B]]]].
+  exists x, b. split; [exact E|]. split.
+  - split.
+    + intro Hb. exists x. apply A. exact Hb.
+    + intros [y [Hy Py]]. destruct b; [reflexivity|]. rewrite (B eq_refl y Hy) in Py. discriminate.
+  - intro Hb. destruct (A Hb) as [Hx Px]. split; [exact Hx|]. split; [exact Px|].
+    intros y Hy Py.
+    unfold keys_of in Hx, Hy. apply in_map_iff in Hx as [ex [<- Hex]]. apply in_map_iff in Hy as [ey [<- Hey]].
+    (* two prefixes of k are comparable; the trie is prefix-free *)
+    pose proof (prefixes_of_same_comparable _ _ _ Py Px) as C. unfold comparable in C.
+    apply orb_true_iff in C as [C|C].
+    + f_equal. eapply wf_prefix_free; eauto.
+    + f_equal. symmetry. eapply wf_prefix_free; eauto.
+Qed.
+
+(* ---- FindSubtrie ------------------------------------------------------------- *)
+Definition under {D} (k : bits) (e : bits * D) : bool := is_prefix k (fst e).
+
+Lemma wf_positive_entries {D} p (t : trie D) : wf_at p t -> t <> E -> entries t <> [].
+Proof.
+  intros Hw Hne He. apply entries_nil_size in He. apply (wf_size0 p) in He; auto.
+Qed.
+
+Lemma filter_all {A} (f : A -> bool) l : (forall x, In x l -> f x = true) -> filter f l = l.
+Proof.
+  induction l as [|a l IH]; simpl; intro H; [reflexivity|].
+  rewrite (H a (or_introl eq_refl)). f_equal. apply IH. intros x Hx. apply H. right. exact Hx.
+Qed.
+Lemma filter_none {A} (f : A -> bool) l : (forall x, In x l -> f x = false) -> filter f l = [].
+Proof.
+  induction l as [|a l IH]; simpl; intro H; [reflexivity|].
+  rewrite (H a (or_introl eq_refl)). apply IH. intros x Hx. apply H. right. exact Hx.
+Qed.
+
+(* entries under a prefix q that extends the path of the node by bit b are those of child b *)
+Lemma filter_under_child {D} p (t0 t1 : trie D) b q :
+  wf_at p (Nd t0 t1) -> is_prefix (p ++ [b]) q = true ->
+  filter (under q) (entries (Nd t0 t1)) = filter (under q) (entries (child t0 t1 b)).
+Proof.
+  intros [W0 [W1 _]] Hq. simpl. rewrite filter_app.
+  destruct b; simpl.
+  - rewrite (filter_none _ (entries t0)); [reflexivity|].
+    intros e He. unfold under. destruct (is_prefix q (fst e)) eqn:E; [|reflexivity]. exfalso.
+    pose proof (wf_at_entries_prefix _ _ _ W0 He) as A.
+    pose proof (is_prefix_trans _ _ _ Hq E) as B.
+    destruct (siblings_incomparable p (fst e) (fst e) A B) as [C _]. rewrite is_prefix_refl in C. discriminate.
+  - rewrite (filter_none _ (entries t1)); [apply app_nil_r|].
+    intros e He. unfold under. destruct (is_prefix q (fst e)) eqn:E; [|reflexivity]. exfalso.
+    pose proof (wf_at_entries_prefix _ _ _ W1 He) as A.
+    pose proof (is_prefix_trans _ _ _ Hq E) as B.
+    destruct (siblings_incomparable p (fst e) (fst e) B A) as [C _]. rewrite is_prefix_refl in C. discriminate.
+Qed.
+
+Lemma find_subtrie_loop_spec {D} (root : trie D) (br : trie D) : forall p k,
+  wf_at p br -> is_prefix p k = true ->
+  exists s ok, find_subtrie_loop root br k (length p) = Ok (s, ok) /\
+    (ok = true -> entries s = filter (under k) (entries br) /\ entries s <> [] /\ exists q, wf_at q s) /\
+    (ok = false -> filter (under k) (entries br) = []).
+Proof.
+  induction br as [|k' d|t0 IH0 t1 IH1]; intros p k Hw Hp.
+  - simpl. destruct (Nat.eqb (length p) (length k)).
+    + exists E, false. simpl. repeat split; try discriminate; reflexivity.
+    + exists root, false. simpl. repeat split; try discriminate; reflexivity.
+  - cbn [find_subtrie_loop]. destruct (Nat.eqb (length p) (length k)) eqn:El.
+    + apply Nat.eqb_eq in El. pose proof (is_prefix_same_length _ _ Hp El) as ->.
+      exists (L k' d), true. simpl in Hw. simpl. unfold under; simpl. rewrite Hw.
+      repeat split; try discriminate. exists k. exact Hw.
+    + exists (L k' d), (Nat.eqb (cpl k' k) (length k)). split; [reflexivity|].
+      rewrite cpl_eqb_is_prefix_r. simpl. unfold under; simpl. destruct (is_prefix k k') eqn:E.
+      * repeat split; try discriminate. exists p. exact Hw.
+      * split; [discriminate|reflexivity].
+  - cbn [find_subtrie_loop]. destruct (Nat.eqb (length p) (length k)) eqn:El.
+    + apply Nat.eqb_eq in El. pose proof (is_prefix_same_length _ _ Hp El) as ->.
+      exists (Nd t0 t1), true. split; [reflexivity|]. split; [|discriminate]. intros _.
+      split; [|split].
+      * symmetry. apply filter_all. intros e He. apply (wf_at_entries_prefix _ _ _ Hw He).
+      * apply (wf_positive_entries k); [exact Hw|discriminate].
+      * exists k. exact Hw.
+    + apply Nat.eqb_neq in El. pose proof (is_prefix_length _ _ Hp) as Hl.
+      destruct (bit_at_lt k (length p)) as [b [Hb Hn]]; [lia|]. rewrite Hb. cbn [bind].
+      assert (Hp' : is_prefix (p ++ [b]) k = true) by (apply is_prefix_snoc; auto).
+      pose proof (wf_at_child p t0 t1 b Hw) as Wc.
+      assert (Hlen : S (length p) = length (p ++ [b])) by (rewrite app_length; simpl; lia).
+      rewrite Hlen. rewrite (filter_under_child p t0 t1 b k Hw Hp').
+      destruct b; simpl child in *.
+      * apply (IH1 _ k Wc Hp').
+      * apply (IH0 _ k Wc Hp').
+Qed.
+
+(* FindSubtrie never panics on a well-formed trie; ok iff some key has k as prefix; the subtrie
+   returned then holds exactly the entries whose key has k as prefix, in the same order *)
+Theorem find_subtrie_exact {D} (t : trie D) k : wf t ->
+  exists s ok, find_subtrie t k = Ok (s, ok) /\
+    (ok = true <-> exists e, In e (entries t) /\ is_prefix k (fst e) = true) /\
+    (ok = true -> entries s = filter (under k) (entries t) /\ exists q, wf_at q s).
+Proof.
+  intro Hw. unfold find_subtrie. destruct (is_empty_leaf t) eqn:Ee.
+  - destruct t; try discriminate. exists E, false. split; [reflexivity|]. split; [|discriminate].
+    split; [discriminate|]. intros [e [[] _]].
+  - destruct (find_subtrie_loop_spec t t [] k Hw eq_refl) as [s [ok [E1 [A B]]]].
+    exists s, ok. split; [exact E1|]. split.
+    + split.
+      * intro Hok. destruct (A Hok) as [Es [Hne _]]. rewrite Es in Hne.
+        destruct (filter (under k) (entries t)) as [|e l] eqn:F; [congruence|].
+        exists e. assert (In e (filter (under k) (entries t))) by (rewrite F; left; reflexivity).
+        apply filter_In in H. exact H.
+      * intros [e [He Pe]]. destruct ok; [reflexivity|]. specialize (B eq_refl).
+        assert (In e (filter (under k) (entries t))) by (apply filter_In; split; assumption).
+        rewrite B in H. contradiction.
+    + intro Hok. destruct (A Hok) as [Es [_ Hq]]. split; assumption.
+Qed.
+
+(* ---- PruneSubtrie ------------------------------------------------------------ *)
+Lemma set_child_entries {D} (t0 t1 c : trie D) b :
+  entries (set_child t0 t1 b c) = if b then entries t0 ++ entries c else entries c ++ entries t1.
+Proof. destruct b; reflexivity. Qed.
+
+Lemma prune_at_spec {D} (t : trie D) : forall p k,
+  wf_at p t -> is_prefix p k = true ->
+  exists t' b, prune_at t k (length p) = Ok (t', b) /\ wf_at p t' /\
+    entries t' = filter (fun e => negb (under k e)) (entries t) /\
+    (b = true -> t' = E) /\ (b = false -> t' = E -> t = E).
+Proof.
+  induction t as [|k' d|t0 IH0 t1 IH1]; intros p k Hw Hp.
+  - exists E, false. simpl. repeat split; auto; discriminate.
+  - simpl. unfold under; simpl. destruct (is_prefix k k') eqn:E1; simpl.
+    + exists E, true. repeat split; auto; discriminate.
+    + exists (L k' d), false. repeat split; auto; discriminate.
+  - cbn [prune_at]. destruct (Nat.eqb (length p) (length k)) eqn:El.
+    + apply Nat.eqb_eq in El. pose proof (is_prefix_same_length _ _ Hp El) as ->.
+      exists E, true. split; [reflexivity|]. split; [exact I|]. split; [|split; [reflexivity|discriminate]].
+      symmetry. apply filter_none. intros e He. unfold under.
+      rewrite (wf_at_entries_prefix _ _ _ Hw He). reflexivity.
+    + apply Nat.eqb_neq in El. pose proof (is_prefix_length _ _ Hp) as Hl.
+      destruct (bit_at_lt k (length p)) as [b [Hb Hn]]; [lia|]. rewrite Hb. cbn [bind].
+      assert (Hp' : is_prefix (p ++ [b]) k = true) by (apply is_prefix_snoc; auto).
+      pose proof (wf_at_child p t0 t1 b Hw) as Wc.
+      pose proof (wf_at_child p t0 t1 (negb b) Hw) as Wo.
+      assert (Hlen : S (length p) = length (p ++ [b])) by (rewrite app_length; simpl; lia).
+      rewrite Hlen.
+      (* the entries of the other child are all kept *)
+      assert (Keep : filter (fun e => negb (under k e)) (entries (child t0 t1 (negb b)))
+                     = entries (child t0 t1 (negb b))).
+      { apply filter_all. intros e He. unfold under. apply negb_true_iff.
+        destruct (is_prefix k (fst e)) eqn:E1; [|reflexivity]. exfalso.
+        pose proof (wf_at_entries_prefix _ _ _ Wo He) as A.
+        pose proof (is_prefix_trans _ _ _ Hp' E1) as B.
+        destruct b; simpl in A.
+        - destruct (siblings_incomparable p (fst e) (fst e) A B) as [C _]. rewrite is_prefix_refl in C. discriminate.
+        - destruct (siblings_incomparable p (fst e) (fst e) B A) as [C _]. rewrite is_prefix_refl in C. discriminate. }
+      assert (IH : exists t' r, prune_at (child t0 t1 b) k (length (p ++ [b])) = Ok (t', r) /\
+                 wf_at (p ++ [b]) t' /\
+                 entries t' = filter (fun e => negb (under k e)) (entries (child t0 t1 b)) /\
+                 (r = true -> t' = E) /\ (r = false -> t' = E -> child t0 t1 b = E)).
+      { destruct b; [apply (IH1 _ k Wc Hp')|apply (IH0 _ k Wc Hp')]. }
+      destruct IH as [c [r [E1 [Wc' [Ec [R1 R2]]]]]]. rewrite E1. cbn [bind fst snd].
+      destruct (r && is_empty_leaf (child t0 t1 (negb b))) eqn:Ecol.
+      * apply andb_true_iff in Ecol as [-> Eo]. specialize (R1 eq_refl). subst c.
+        exists E, true. split; [reflexivity|]. split; [exact I|]. split; [|split; [reflexivity|discriminate]].
+        simpl. rewrite filter_app.
+        destruct (child t0 t1 (negb b)) eqn:Eo'; try discriminate.
+        destruct b; simpl in *; subst; simpl in *; rewrite <- Ec; reflexivity.
+      * exists (set_child t0 t1 b c), false. split; [reflexivity|]. split; [|split; [|split; [discriminate|]]].
+        -- (* well-formed: positivity *)
+           destruct Hw as [W0 [W1 Pos]].
+           assert (Sz : 0 < size c + size (child t0 t1 (negb b))).
+           { destruct (size (child t0 t1 (negb b))) eqn:So; [|lia].
+             apply (wf_size0 _ _ Wo) in So.
+             destruct (size c) eqn:Sc; [|lia]. exfalso. apply (wf_size0 _ _ Wc') in Sc. subst c.
+             rewrite So in Ecol. simpl in Ecol. rewrite andb_true_r in Ecol. subst r.
+             specialize (R2 eq_refl eq_refl).
+             destruct b; simpl in *; subst; simpl in Pos; lia. }
+           destruct b; simpl in *; repeat split; auto; lia.
+        -- rewrite set_child_entries. simpl. rewrite filter_app.
+           destruct b; simpl in *; rewrite Ec, Keep; reflexivity.
+        -- intros _ Hset. destruct b; discriminate.
+Qed.
+
+(* PruneSubtrie never panics on a well-formed trie, keeps it well formed, and removes exactly
+   the entries whose key has k as prefix (keeping the order of the others) *)
+Theorem prune_exact {D} (t : trie D) k : wf t ->
+  exists t', prune_subtrie t k = Ok t' /\ wf t' /\
+    entries t' = filter (fun e => negb (is_prefix k (fst e))) (entries t).
+Proof.
+  intro Hw. destruct (prune_at_spec t [] k Hw eq_refl) as [t' [b [E1 [W [Es _]]]]].
+  exists t'. unfold prune_subtrie. simpl in E1. rewrite E1. simpl. auto.
+Qed.
+
+(* ---- iteration (AllEntries / AllKeys / AllValues) ------------------------------ *)
+(* a is before b in the order: at the first position where they differ a agrees with the order *)
+Definition ord_before (order a b : bits) : Prop :=
+  exists i x, firstn i a = firstn i b /\ nth_error a i = Some x /\ nth_error b i = Some (negb x) /\
+              nth_error order i = Some x.
+
+Lemma is_prefix_firstn p k : is_prefix p k = true -> firstn (length p) k = p.
+Proof.
+  revert k; induction p as [|x p IH]; intros [|y k]; simpl; intro H; try reflexivity; try discriminate.
+  apply andb_true_iff in H as [E H]. apply eqb_prop in E. subst. f_equal. apply IH. exact H.
+Qed.
+
+Lemma height_child {D} (t0 t1 : trie D) b : S (height (child t0 t1 b)) <= height (Nd t0 t1).
+Proof. destruct b; simpl; lia. Qed.
+
+Lemma iter_at_spec {D} (t : trie D) : forall p order,
+  wf_at p t -> height t + length p <= length order ->
+  exists l, iter_at t order (length p) = Ok l /\ Permutation l (entries t) /\
+            StronglySorted (fun e1 e2 => ord_before order (fst e1) (fst e2)) l.
+Proof.
+  induction t as [|k d|t0 IH0 t1 IH1]; intros p order Hw Hh.
+  - exists []. simpl. repeat split; auto. constructor.
+  - exists [(k, d)]. simpl. repeat split; auto. constructor; constructor.
+  - cbn [iter_at]. simpl in Hh.
+    destruct (bit_at_lt order (length p)) as [b [Hb Hn]]; [lia|]. rewrite Hb. cbn [bind].
+    assert (Hlen : forall c, S (length p) = length (p ++ [c])) by (intro; rewrite app_length; simpl; lia).
+    assert (A : exists l, iter_at (child t0 t1 b) order (S (length p)) = Ok l /\
+                Permutation l (entries (child t0 t1 b)) /\
+                StronglySorted (fun e1 e2 => ord_before order (fst e1) (fst e2)) l).
+    { rewrite (Hlen b). pose proof (wf_at_child p t0 t1 b Hw) as W.
+      destruct b; simpl in W; [apply IH1|apply IH0]; try exact W; rewrite app_length; simpl; lia. }
+    assert (B : exists l, iter_at (child t0 t1 (negb b)) order (S (length p)) = Ok l /\
+                Permutation l (entries (child t0 t1 (negb b))) /\
+                StronglySorted (fun e1 e2 => ord_before order (fst e1) (fst e2)) l).
+    { rewrite (Hlen (negb b)). pose proof (wf_at_child p t0 t1 (negb b) Hw) as W.
+      destruct b; simpl in W; [apply IH0|apply IH1]; try exact W; rewrite app_length; simpl; lia. }
+    destruct A as [la [Ea [Pa Sa]]]. destruct B as [lb [Eb [Pb Sb]]].
+    rewrite Ea. cbn [bind]. rewrite Eb. cbn [bind].
+    exists (la ++ lb). split; [reflexivity|]. split.
+    + simpl. destruct b; simpl in *.
+      * eapply Permutation_trans; [apply Permutation_app; eassumption|apply Permutation_app_comm].
+      * apply Permutation_app; assumption.
+    + (* sorted: everything in la is before everything in lb *)
+      assert (Cross : forall ea eb, In ea la -> In eb lb -> ord_before order (fst ea) (fst eb)).
+      { intros ea eb Ha Hb'.
+        pose proof (wf_at_entries_prefix _ _ _ (wf_at_child p t0 t1 b Hw) (Permutation_in _ Pa Ha)) as Qa.
+        pose proof (wf_at_entries_prefix _ _ _ (wf_at_child p t0 t1 (negb b) Hw) (Permutation_in _ Pb Hb')) as Qb.
+        apply is_prefix_snoc in Qa as [Qa1 Qa2]. apply is_prefix_snoc in Qb as [Qb1 Qb2].
+        exists (length p), b. rewrite (is_prefix_firstn _ _ Qa1), (is_prefix_firstn _ _ Qb1). auto. }
+      clear - Sa Sb Cross. induction la as [|a la IH]; simpl; [exact Sb|].
+      inversion Sa; subst. constructor.
+      * apply IH; auto. intros; apply Cross; auto. right; assumption.
+      * apply Forall_app. split; [assumption|].
+        apply Forall_forall. intros eb Hb'. apply Cross; [left; reflexivity|assumption].
+Qed.
+
+(* AllEntries on a well-formed trie at most as deep as the order is long: the entries of the
+   trie, sorted by the order *)
+Theorem all_entries_sorted {D} (t : trie D) order : wf t -> height t <= length order ->
+  exists l, all_entries t order = Ok l /\ Permutation l (entries t) /\
+            StronglySorted (fun e1 e2 => ord_before order (fst e1) (fst e2)) l.
+Proof. intros Hw Hh. apply (iter_at_spec t [] order Hw). simpl. lia. Qed.
+
+(* iteration from depth 0 of any subtrie (as AllValues(items, zeroKey) does): no panic when the
+   subtrie is at most as deep as the order is long; the order of the result is not used *)
+Lemma iter_at_perm {D} (t : trie D) : forall order depth,
+  height t + depth <= length order ->
+  exists l, iter_at t order depth = Ok l /\ Permutation l (entries t).
+Proof.
+  induction t as [|k d|t0 IH0 t1 IH1]; intros order depth Hh.
+  - exists []. simpl. auto.
+  - exists [(k, d)]. simpl. auto.
+  - cbn [iter_at]. simpl in Hh.
+    destruct (bit_at_lt order depth) as [b [Hb Hn]]; [lia|]. rewrite Hb. cbn [bind].
+    destruct (IH0 order (S depth)) as [l0 [E0 P0]]; [lia|].
+    destruct (IH1 order (S depth)) as [l1 [E1 P1]]; [lia|].
+    destruct b; simpl; rewrite ?E0, ?E1; cbn [bind]; rewrite ?E0, ?E1; cbn [bind].
+    + exists (l1 ++ l0). split; [reflexivity|].
+      eapply Permutation_trans; [apply Permutation_app; eassumption|apply Permutation_app_comm].
+    + exists (l0 ++ l1). split; [reflexivity|]. apply Permutation_app; assumption.
+Qed.
+
+Lemma zero_key_length : length zero_key = 256.
+Proof. unfold zero_key. apply repeat_length. Qed.
+
+Lemma all_values_perm {D} (t : trie D) : height t <= 256 ->
+  exists vs, all_values t zero_key = Ok vs /\ Permutation vs (map snd (entries t)).
+Proof.
+  intro Hh. unfold all_values, all_entries.
+  destruct (iter_at_perm t zero_key 0) as [l [E1 P]]; [rewrite zero_key_length; lia|].
+  rewrite E1. simpl. exists (map snd l). split; [reflexivity|]. apply Permutation_map. exact P.
+Qed.
+
+Lemma all_entries_perm {D} (t : trie D) : height t <= 256 ->
+  exists l, all_entries t zero_key = Ok l /\ Permutation l (entries t).
+Proof. intro Hh. apply iter_at_perm. rewrite zero_key_length. lia. Qed.
+
+(* a well-formed trie is no deeper than its longest key *)
+Lemma wf_height {D} (t : trie D) : forall p n,
+  wf_at p t -> (forall e, In e (entries t) -> length (fst e) <= n) -> t <> E -> height t + length p <= n.
+Proof.
+  induction t as [|k d|t0 IH0 t1 IH1]; intros p n Hw Hn Hne.
+  - congruence.
+  - simpl. simpl in Hw. apply is_prefix_length in Hw. specialize (Hn (k, d) (or_introl eq_refl)). simpl in Hn. lia.
+  - simpl. destruct Hw as [W0 [W1 Pos]].
+    assert (H0 : t0 <> E -> height t0 + S (length p) <= n).
+    { intro N0. specialize (IH0 (p ++ [false]) n W0). rewrite app_length in IH0. simpl in IH0.
+      replace (S (length p)) with (length p + 1) by lia. apply IH0; auto.
+      intros e He. apply Hn. simpl. apply in_or_app. left. exact He. }
+    assert (H1 : t1 <> E -> height t1 + S (length p) <= n).
+    { intro N1. specialize (IH1 (p ++ [true]) n W1). rewrite app_length in IH1. simpl in IH1.
+      replace (S (length p)) with (length p + 1) by lia. apply IH1; auto.
+      intros e He. apply Hn. simpl. apply in_or_app. right. exact He. }
+    assert (Some0 : t0 <> E \/ t1 <> E).
+    { destruct t0; [|left; discriminate|left; discriminate]. destruct t1; [simpl in Pos; lia|right; discriminate|right; discriminate]. }
+    destruct t0 as [|k0 e0|a0 b0]; destruct t1 as [|k1 e1|a1 b1]; simpl in *;
+      try (specialize (H0 ltac:(discriminate))); try (specialize (H1 ltac:(discriminate))); simpl in *; try lia.
+Qed.
